@@ -995,6 +995,13 @@ pub fn run_c17(tier: Tier) -> i32 {
         }
     }
     let nthr = thr.len();
+    // a fixed interleaving of the work items: when the thorough tier hits its wall-clock cap, what was covered is a
+    // spread over all top-level throwables and first frames, not a prefix of the list (the quick tier completes)
+    {
+        let mut keyed: Vec<(usize, usize, (Option<usize>, Option<usize>))> = work.iter().enumerate().map(|(i, w)| ((w.0.map(|x| x + 1).unwrap_or(0) * 7 + w.1.map(|x| x + 1).unwrap_or(0) * 13) % 16, i, *w)).collect();
+        keyed.sort();
+        work = keyed.into_iter().map(|k| k.2).collect();
+    }
     let acc = par_run(&work, &budget, |&(ti, fi), acc, budget| {
         // single frames / throwables (once per distinct index)
         if ti.is_none() {
